@@ -121,6 +121,7 @@ type gen struct {
 	probes       [][2]string       // (op line, observation) of UpdateProposalOracles probes against the real keeper
 	tallies      [][2]string       // (op line, observation) of gov Tally probes
 	erc20Holders [][2]string       // (external token contract, user index) of deposits that were converted to the ERC-20 side
+	lastSwitch   *fxgovtypes.SwitchParams // the switch parameters of the previous governance change
 }
 
 // bridgeTok is a many-to-one coin registered by governance whose aliases are its bridge denominations.
